@@ -1,3 +1,4 @@
+import SqfModel.Preproc
 import SqfModel.Lex
 import SqfModel.Parse
 import SqfModel.Compile
@@ -143,5 +144,77 @@ example : ((lexText n!"1 // x").getLast?.map (·.kind)) = some .eof := by decide
 example : ((lexText n!"1 /* x").getLast?.map (·.kind)) = some .eof := by decide +kernel
 example : (lexText n!"#line abc").length ≤ 10 := by decide +kernel
 example : ((lexText n!"str tr").getLast?.map (·.kind)) = some .eof := by decide +kernel
+
+open Sqf.Pp
+
+/-! ## the preprocessor: the reader is linear in the input and the expander is a total function -/
+
+
+/-- characters the reader holds back in a state -/
+def pending : RS → Nat
+  | .slash => 1 | .bs _ => 1 | .bscr _ => 1 | _ => 0
+
+theorem base_len (inStr : Bool) (ln : Nat) (c : B) : (base inStr ln c).1.length + pending (base inStr ln c).2.1 ≤ 1 := by
+  unfold base
+  repeat' split
+  all_goals (cases inStr <;> simp [pending, RS.base])
+
+theorem stepC_len (s : RS) (ln : Nat) (c : B) : (stepC s ln c).1.length + pending (stepC s ln c).2.1 ≤ pending s + 1 := by
+  cases s with
+  | code => have := base_len false ln c; simpa [stepC, pending] using this
+  | str => have := base_len true ln c; simpa [stepC, pending] using this
+  | block => simp only [stepC]; repeat' split
+             all_goals simp [pending]
+  | line => simp only [stepC]; repeat' split
+            all_goals simp [pending]
+  | star => simp only [stepC]; repeat' split
+            all_goals simp [pending]
+  | slash =>
+    have hb := base_len false ln c
+    have hp : pending RS.slash = 1 := rfl
+    simp only [stepC]
+    split
+    · simp [pending]
+    · split
+      · simp [pending]
+      · simp only [List.length_cons, hp]; omega
+  | bs b =>
+    have hb := base_len b ln c
+    have hp : pending (RS.bs b) = 1 := rfl
+    have hp2 : ∀ x, pending (RS.base x) = 0 := by intro x; cases x <;> rfl
+    simp only [stepC]
+    split
+    · simp [hp, hp2]
+    · split
+      · simp [hp, pending]
+      · simp only [List.length_cons, hp]; omega
+  | bscr b =>
+    have hb := base_len b ln c
+    have hp : pending (RS.bscr b) = 1 := rfl
+    have hp2 : ∀ x, pending (RS.base x) = 0 := by intro x; cases x <;> rfl
+    simp only [stepC]
+    split
+    · simp [hp, hp2]
+    · simp only [List.length_cons, hp]; omega
+
+/-- **The preprocessor's reader delivers no more characters than the source has**: comments, continuations
+and carriage returns only ever remove; reading is one step per byte -/
+theorem C10_reader_linear (src : List B) : ∀ (s : RS) (ln : Nat), (strip s ln src).length ≤ src.length + pending s := by
+  induction src with
+  | nil => intro s ln; cases s <;> simp [strip, flush, pending]
+  | cons c cs ih =>
+    intro s ln
+    rw [strip]
+    have h1 := stepC_len s ln c
+    have h2 := ih (stepC s ln c).2.1 (stepC s ln c).2.2
+    simp only [List.length_append, List.length_cons]
+    omega
+
+/-- preprocessing is a function into "text or error code": every source is expanded or rejected, and the
+same source with the same files and macro table always gives the same answer -/
+theorem C10_preprocess_total (e : Env) (t : Table) (text : List B) : (∃ out, run e t text = .ok out) ∨ (∃ code, run e t text = .error code) := by
+  cases h : run e t text with
+  | ok o => exact Or.inl ⟨o, rfl⟩
+  | error c => exact Or.inr ⟨c, rfl⟩
 
 end Sqf.Props.C10
